@@ -1,5 +1,6 @@
 import PSO.Proofs.RaftDemo
 import PSO.Proofs.BridgeRestart
+import PSO.Proofs.BridgeRestartIdem
 
 /-!
 # C06 — a journaled node restarts without forgetting anything it acknowledged (protocol level)
@@ -116,5 +117,29 @@ example : ∃ S', step 3 PSO.Bridge.exStateR (.restart 0 2 2) = some S' ∧ (S'.
   refine ⟨S', h1, ?_⟩
   rw [h2]
   decide
+
+/-- **A kill during (or right after) the start-up loses nothing more**: starting again on the files the first start
+left behind — the journal `(restartNode s sc dump).log`, the same meta and the same dump file — yields the same node.
+No hypothesis on the journal: it holds in the `DumpHeld` branch and in the branch where the dump replaces the journal
+(`PSO/Proofs/BridgeRestartIdem.lean`; `restartNode` is compared with the real start-up by `corr.restart_handler`). -/
+theorem restart_twice_is_restart_once (s : PSO.NodeSend.Node) (sc : Nat)
+    (dump : Option (PSO.NodeSend.Entry × PSO.NodeSend.Entry)) :
+    PSO.NodeSend.restartNode (PSO.NodeSend.restartNode s sc dump) sc dump = PSO.NodeSend.restartNode s sc dump := by
+  exact PSO.Bridge.restart_idempotent s sc dump
+
+/-- … and after a start with a dump file the journal begins with the dump's two entries, whatever it held before. -/
+theorem restart_journal_begins_with_dump (s : PSO.NodeSend.Node) (sc : Nat) (p l : PSO.NodeSend.Entry) :
+    ∃ r, (PSO.NodeSend.restartNode s sc (some (p, l))).log = p :: l :: r := by
+  exact PSO.Bridge.restartNode_log_begins s sc p l
+
+/-- Non-vacuity: the 3-voter leader with a dump at index 3 really drops its journal head at the first start (the journal
+gets shorter), and the second start changes nothing. -/
+example : (PSO.NodeSend.restartNode PSO.Bridge.exLeaderR 2 (some (PSO.Bridge.exLogS[1]!, PSO.Bridge.exLogS[2]!))).log.length
+      < PSO.Bridge.exLeaderR.log.length ∧
+    PSO.NodeSend.restartNode (PSO.NodeSend.restartNode PSO.Bridge.exLeaderR 2 (some (PSO.Bridge.exLogS[1]!, PSO.Bridge.exLogS[2]!))) 2
+      (some (PSO.Bridge.exLogS[1]!, PSO.Bridge.exLogS[2]!)) =
+    PSO.NodeSend.restartNode PSO.Bridge.exLeaderR 2 (some (PSO.Bridge.exLogS[1]!, PSO.Bridge.exLogS[2]!)) := by
+  refine ⟨by decide, ?_⟩
+  exact restart_twice_is_restart_once _ _ _
 
 end PSO.C06
